@@ -37,10 +37,13 @@ func TestVerifRace(t *testing.T) {
 	crand.Reader = io.Reader(&vAtomicReader{})
 	defer func() { crand.Reader = saved }()
 	s := h14Setup()
-	crAlpha, crReqs, _ := h02Ref(s.cr)
-	sfAlpha, sfReqs, _ := h02Ref(s.sfRec)
-	crEnt, wrEnt := s.cr.Entropy(), s.wr.Entropy()
-	words := append([]string(nil), s.wl.words...)
+	// expectations come from a second, identical set of values: the shared ones
+	// must meet their first use under concurrency
+	ref := h14Setup()
+	crAlpha, crReqs, _ := h02Ref(ref.cr)
+	sfAlpha, sfReqs, _ := h02Ref(ref.sfRec)
+	crEnt, wrEnt := ref.cr.Entropy(), ref.wr.Entropy()
+	words := append([]string(nil), ref.wl.words...)
 	var bad int64
 	var firstBad atomic.Value
 	fail := func(format string, a ...interface{}) {
